@@ -15,8 +15,8 @@ RULE = ("seeded designs; the pycmsgen fake enumerates all models of the clauses 
         "distinct = (design skeleton, sampler)")
 ASSUMPTIONS = ["bounded model enumeration inside the fake (real pycryptosat with blocking clauses over all variables)",
                "there is no fault or schedule on which the truth of C03 depends: what is sampled is the design, the transport and the model order"]
-BUDGET = {"quick": 45, "thorough": 900}
-RUNS = {"quick": 2500, "thorough": 120000}
+BUDGET = {"quick": 300, "thorough": 900}
+RUNS = {"quick": 2000, "thorough": 120000}
 MODEL_CAP = {"quick": 150, "thorough": 5000}
 
 
